@@ -150,6 +150,16 @@ def cases_for_type(cls_name, row, rnd, all_enums, n_extra=6):
                 vals.append(s.upper() if s != s.upper() else s.lower())
                 vals.append(' ' + s + '  ')
                 vals.append(s + s)
+    if cls_name in ('XSDSimpleTypeDate', 'XSDSimpleTypeYyyyMmDd'):
+        # the calendar: ends of months, leap years (also year 0, negative and 5-digit years), zones at the limit
+        for y in ['2000', '1900', '2100', '2024', '2023', '0000', '-0004', '-0001', '-0100', '-0400', '0100', '0400', '12344', '12300', '12400', '12345']:
+            for md in ['02-28', '02-29', '02-30', '04-30', '04-31', '06-31', '09-31', '11-31', '01-31', '12-31', '12-32', '00-10', '13-01', '01-00']:
+                vals.append('%s-%s' % (y, md))
+        for _ in range(40 + 4 * n_extra):
+            y = rnd.choice(['2000', '1900', '2024', '2023', '0000', '-0004', '-0001', '12344', '12345', '0400', '0100', '-0100', '-0400',
+                            '%04d' % rnd.randint(1, 9999)])
+            vals.append('%s-%02d-%02d%s' % (y, rnd.randint(1, 12), rnd.choice([27, 28, 29, 30, 31, rnd.randint(1, 31)]),
+                                          rnd.choice(['', '', '', 'Z', '+14:00', '-13:59', '+14:01', '+02:00'])))
     vals += rnd.sample(NUMS, min(len(NUMS), 6 + n_extra))
     vals += rnd.sample(STRS, min(len(STRS), 6 + n_extra))
     vals += rnd.sample(all_enums, min(len(all_enums), 4 + n_extra))
